@@ -11,7 +11,26 @@ def _project():
     return toml.load("pyproject.toml")["project"]
 
 
+def _rendezvous():
+    """when the harness asks for it (RV_BACKEND_RENDEZVOUS names a directory): announce that this hook call has begun and
+    give another call a moment to begin as well - if the analyser lets two hook calls overlap they do overlap here; if it
+    serialises them the wait simply runs out"""
+    import threading
+    import time
+    d = os.environ.get("RV_BACKEND_RENDEZVOUS")
+    if not d or not os.path.isdir(d):
+        return
+    open(os.path.join(d, "arrived-%d-%d" % (os.getpid(), threading.get_ident())), "w").close()
+    deadline = time.time() + 0.4
+    while time.time() < deadline:
+        if len([f for f in os.listdir(d) if f.startswith("arrived-")]) >= 2:
+            time.sleep(0.05)
+            break
+        time.sleep(0.01)
+
+
 def prepare_metadata_for_build_wheel(metadata_directory, config_settings=None):
+    _rendezvous()
     proj = _project()
     sys.argv[1:] = ["dist_info", "--output-dir", metadata_directory]      # in place: the caller's list object is edited
     sys.argv.append("--keep-egg-info")
